@@ -12,7 +12,7 @@ Print Assumptions C13_rtf_special_chars_match.
 (* the pointwise premises of the RTF theorems hold for today's whitespace and \w tables *)
 Theorem C13_rtf_oracle_facts :
   py_is_ws 32 = true /\ py_is_ws 9 = true /\ py_is_ws 10 = true /\ py_is_ws 11 = true /\ py_is_ws 12 = true /\
-  py_is_ws 100 = false /\ py_is_word 32 = false /\ py_is_word 92 = false /\ py_is_word 10 = false.
+  py_is_ws 100 = false /\ py_is_word 32 = false /\ py_is_word 92 = false /\ py_is_word 10 = false /\ py_is_word 125 = false.
 Proof. repeat split; vm_compute; reflexivity. Qed.
 Print Assumptions C13_rtf_oracle_facts.
 
@@ -21,7 +21,17 @@ Theorem C13_rtf_tables_single_live : forall g : list (list str), g <> [] ->
   forallb (fun r => negb (is_nil r)) g = true -> forallb (forallb (rtf_plain py_is_ws)) g = true ->
   rtf_tables py_is_ws py_is_word (rtf_r_doc [RTable g]) = [rtf_pad_rows g].
 Proof.
-  destruct C13_rtf_oracle_facts as (a & b & c & d & e & _ & f & g' & h).
+  destruct C13_rtf_oracle_facts as (a & b & c & d & e & _ & f & g' & h & _).
   exact (rtf_tables_single py_is_ws py_is_word a b c d e f g' h).
 Qed.
 Print Assumptions C13_rtf_tables_single_live.
+
+Theorem C13_rtf_tables_single_gen_live : forall (tight : bool) (sep : str) (g : list (list str)),
+  rtf_row_sep_ok sep = true -> g <> [] ->
+  forallb (fun r => negb (is_nil r)) g = true -> forallb (forallb (rtf_plain py_is_ws)) g = true ->
+  rtf_tables py_is_ws py_is_word (rtf_r_doc_gen tight sep g) = [rtf_pad_rows g].
+Proof.
+  destruct C13_rtf_oracle_facts as (a & b & c & d & e & _ & f & g' & h & i).
+  exact (rtf_tables_single_gen py_is_ws py_is_word a b c d e f g' h i).
+Qed.
+Print Assumptions C13_rtf_tables_single_gen_live.
